@@ -107,7 +107,8 @@ def analyse_body(W, body):
     for b in body.blocks:
         if b["i"] in pv.live and b["term"]["k"] == "switch":
             switch_terms.append(pv.operand_term(b["term"]["discr"]))
-    ret_terms = [t for l, s_, t in roots if l == 0]
+    from rules import shared as S_
+    ret_terms = [t for _d, t in S_.exits(W, body)]
     out = []
     for bb, t in body.calls():
         dty = t["dest"]["ty"]
@@ -238,7 +239,8 @@ def path_status(W, body, T):
         return None
     pv = W.prov(body)
     errv = frozenset(["err"])
-    succ_blocks = set(d[0] for d in pv.defsites.get(0, []) if not is_error_exit(pv.def_term(d)))
+    from rules import shared as S_
+    succ_blocks = set(d[0] for d, t in S_.exits(W, body) if not is_error_exit(t))
     ret_blocks = set(b["i"] for b in body.blocks if b["term"]["k"] == "return" and not b["cleanup"])
     starts = [y for x, ys in g.edges.items() for y in ys
               if any(dict(y[1]).get(a) == errv and dict(x[1]).get(a) != errv for a in atoms)]
